@@ -149,6 +149,74 @@ pub fn exec(line: &str, model: &mut Model) -> Option<Exec> {
             }
             Some(e)
         }
+        "hist" => {
+            // hist <B1> | <B2>: ONE object is encoded as B1, then changed field by field into B2 (its stored CRC values are
+            // left as the first encoding computed them), then encoded again. The second encoding must be the encoding of
+            // B2 — whatever the object remembers from the first one (memoised checksums, cached bytes) must not show.
+            let k = t.iter().position(|x| *x == "|")?;
+            let (b1, n1) = parse_bundle(&t[1..k])?;
+            let (b2, n2) = parse_bundle(&t[k + 1..])?;
+            if n1 + 1 != k || n2 + k + 1 != t.len() { return None; }
+            let mut obj = b1.clone();
+            let r = no_panic(move || {
+                let _ = obj.to_cbor();
+                obj.primary.bundle_control_flags = b2.primary.bundle_control_flags;
+                obj.primary.destination = b2.primary.destination.clone();
+                obj.primary.source = b2.primary.source.clone();
+                obj.primary.report_to = b2.primary.report_to.clone();
+                obj.primary.creation_timestamp = b2.primary.creation_timestamp.clone();
+                obj.primary.lifetime = b2.primary.lifetime;
+                obj.primary.fragmentation_offset = b2.primary.fragmentation_offset;
+                obj.primary.total_data_length = b2.primary.total_data_length;
+                if obj.canonicals.len() == b2.canonicals.len() {
+                    for (o, n) in obj.canonicals.iter_mut().zip(b2.canonicals.iter()) {
+                        o.block_type = n.block_type; o.block_number = n.block_number; o.block_control_flags = n.block_control_flags;
+                        if o.data() != n.data() { o.set_data(n.data().clone()); }
+                    }
+                } else { obj.canonicals = b2.canonicals.clone(); }
+                let bytes = obj.to_cbor();
+                (bytes, obj)
+            });
+            let (bytes, obj) = match r { Some(x) => x, None => { let mut e = Exec::new("panic".into()); e.oracle_fail = Some("to_cbor panics".into()); return Some(e); } };
+            let mut e = Exec::new(format!("ok {} {}", hex(&bytes), show_bundle(&obj)));
+            e.model_line = Some(format!("enc {}", t[k + 1..].join(" ")));
+            if wf(&obj) {
+                e = e.fail(wire_crc_fail(&obj, &bytes));
+                match no_panic(|| Bundle::try_from(bytes.as_slice())) {
+                    Some(Ok(mut d)) => { if d != obj { e = e.fail(Some(format!("after encode / change / encode, decode(encode(b)) differs from b: {}", show_bundle(&d)))); } else if !d.crc_valid() { e = e.fail(Some("after encode / change / encode, the decoded bundle fails crc_valid".into())); } }
+                    _ => { e = e.fail(Some("after encode / change / encode, the own encoding does not decode".into())); }
+                }
+            }
+            Some(e)
+        }
+        "histupd" => {
+            // histupd <node> <rt> <now> <B>: ONE object is encoded, updated for forwarding, and encoded again; the second
+            // encoding must be the encoding of what a fresh, never encoded object looks like after the same update
+            let node = parse_eid(t.get(1)?)?;
+            let rt: u128 = t.get(2)?.parse().ok()?;
+            let now: u64 = t.get(3)?.parse().ok()?;
+            let (b, n) = parse_bundle(&t[4..])?;
+            if n + 4 != t.len() { return None; }
+            crate::p_misc::set_clock_dtn(now);
+            let mut fresh = b.clone();
+            let (node1, node2) = (node.clone(), node);
+            let fr = no_panic(move || { let r = fresh.update_extensions(node1, rt); (r, fresh) });
+            let mut obj = b.clone();
+            let r = no_panic(move || { let _ = obj.to_cbor(); let ret = obj.update_extensions(node2, rt); let bytes = obj.to_cbor(); (ret, bytes, obj) });
+            let (fret, fresh) = fr?;
+            let (ret, bytes, obj) = match r { Some(x) => x, None => { let mut e = Exec::new("panic".into()); e.oracle_fail = Some("encode / update / encode panics".into()); return Some(e); } };
+            let mut e = Exec::new(format!("ok {} {}", hex(&bytes), show_bundle(&obj)));
+            e.model_line = Some(format!("enc {}", show_bundle(&fresh)));
+            if ret != fret { e = e.fail(Some("update_extensions answers differently on an object that has been encoded before".into())); }
+            if wf(&obj) {
+                e = e.fail(wire_crc_fail(&obj, &bytes));
+                match no_panic(|| Bundle::try_from(bytes.as_slice())) {
+                    Some(Ok(d)) => { if d != obj { e = e.fail(Some(format!("after encode / update / encode, decode(encode(b)) differs from b: {}", show_bundle(&d)))); } }
+                    _ => { e = e.fail(Some("after encode / update / encode, the own encoding does not decode".into())); }
+                }
+            }
+            Some(e)
+        }
         "spec.dec" => {
             // C03: bytes come from the independent reference encoder (the Lean spec through the driver)
             let (b, n) = parse_bundle(&t[1..])?;
@@ -349,15 +417,29 @@ pub fn generate(prop: &str, ctx: &mut Ctx, rep: &mut Report, emit: &mut dyn FnMu
                     3 => v.primary.lifetime = std::time::Duration::from_millis(rng.u64b()),
                     4 => v.primary.creation_timestamp = bp7::CreationTimestamp::with_time_and_seq(base.primary.creation_timestamp.dtntime(), base.primary.creation_timestamp.seqno().wrapping_add(1)),
                     5 => v.primary.creation_timestamp = bp7::CreationTimestamp::with_time_and_seq(base.primary.creation_timestamp.dtntime().wrapping_add(1), base.primary.creation_timestamp.seqno()),
-                    6 => v.primary.bundle_control_flags ^= 0x4,
+                    6 => v.primary.bundle_control_flags ^= *rng.pick(&[0x4u64, 0x80, 0x100, 1 << 21, 1 << 40]),
                     7 => { if v.primary.bundle_control_flags & 1 == 1 { v.primary.total_data_length = v.primary.total_data_length.wrapping_add(1); } else { continue; } }
-                    8 => { if let Some(c) = v.canonicals.first_mut() { c.block_control_flags ^= 0x10; } else { continue; } }
+                    8 => { let n = v.canonicals.len(); if n > 0 { let j = rng.below(n as u64) as usize; v.canonicals[j].block_control_flags ^= *rng.pick(&[0x10u8, 0x01, 0x20, 0x04]); } else { continue; } }
                     9 => { if let Some(c) = v.canonicals.last_mut() { c.block_number = c.block_number.wrapping_add(1); } else { continue; } }
                     10 => { let t = match v.primary.crc { CrcValue::CrcNo => 1, CrcValue::Crc16Empty | CrcValue::Crc16(_) => 2, _ => 0 }; v.set_crc(t); }
                     _ => { let n = v.canonicals.len(); if n >= 2 { v.canonicals.swap(0, n - 1); } else { continue; } }
                 }
                 emit(ctx, rep, format!("{} {}", op, show_bundle(&v)));
                 if k % 4 == 3 { emit(ctx, rep, format!("{} {}", op, show_bundle(&base))); }
+                // ... and as a history of ONE object (the variants that change a CRC type or move blocks are left out: the CRC
+                // types stay where they were)
+                if (prop == "C01" || prop == "C04") && k == 0 {
+                    // ... and with a forwarding update between the two encodings (hop count, age, previous node present)
+                    let mut u = base.clone();
+                    u.canonicals.retain(|c| ![6u64, 7, 10].contains(&c.block_type));
+                    u.canonicals.insert(0, bp7::canonical::new_canonical_block(10, 90, 0, bp7::canonical::CanonicalData::HopCount(40, rng.below(30) as u8)));
+                    u.canonicals.insert(0, bp7::canonical::new_canonical_block(7, 91, 0, bp7::canonical::CanonicalData::BundleAge(rng.below(1000))));
+                    u.canonicals.insert(0, bp7::canonical::new_canonical_block(6, 92, 0, bp7::canonical::CanonicalData::PreviousNode(crate::gen::gen_eid_wf(&mut rng))));
+                    u.primary.lifetime = std::time::Duration::from_millis(u64::MAX / 4);
+                    u.primary.creation_timestamp = bp7::CreationTimestamp::with_time_and_seq(0, 1);
+                    emit(ctx, rep, format!("histupd {} {} {} {}", show_eid(&crate::gen::gen_eid_wf(&mut rng)), 1 + rng.below(50), 1_000_000, show_bundle(&u)));
+                }
+                if (prop == "C01" || prop == "C04") && k < 10 { emit(ctx, rep, format!("hist {} | {}", show_bundle(&base), show_bundle(&v))); }
             }
         }
         if prop == "C15" && (i == 5 || i == n / 2) {
